@@ -677,7 +677,10 @@ func runC45(outer *testing.T) func(t rapid.TB, c c45Case, rec *vx.Case) {
 		}
 		sort.Strings(ks)
 		rec.Class("kinds=%s", strings.Join(ks, ","))
-		rec.Class("extras=%s", extrasLabel(c.Extras))
+		classExtras(rec, c.Extras)
+		if multiOK > 0 {
+			rec.Class("multi-payload-recv")
+		}
 		rec.Class("blocks>=%d", blocks/50*50)
 		rec.NonTrivialIf(ibcBlocks >= 20 && len(kinds) >= 2)
 	}
